@@ -392,6 +392,10 @@ fn case_strategy() -> impl Strategy<Value = Case> {
                 1 => any::<u64>().prop_map(Tok::NonDec),
                 1 => (0u64..300).prop_map(Tok::NonDec),
                 1 => "[a-z]{0,5}".prop_map(Tok::Str),
+                // an element of another kind that merely spells a keyword is not a keyword
+                1 => kw_word().prop_map(Tok::Str),
+                1 => kw_word().prop_map(|w| Tok::Block(w.into_bytes())),
+                1 => kw_word().prop_map(Tok::Expr),
                 1 => proptest::collection::vec(any::<u8>(), 0..5).prop_map(Tok::Block),
                 1 => "[0-9,:]{0,5}".prop_map(Tok::Expr),
             ];
@@ -425,8 +429,10 @@ fn run(e: &Engine) {
         ALL_TY.len() as u64,
         move |p, f| {
             for (i, w) in chimr.iter().enumerate() {
-                if !f(Case { ty: ALL_TY[p as usize], tok: Tok::Chr(w.clone()), min: 2f64.to_bits(), max: 100f64.to_bits(), default: Some(7f64.to_bits()), path: (i % 7) as u8 }) {
-                    return;
+                for tok in [Tok::Chr(w.clone()), Tok::Str(w.clone()), Tok::Block(w.clone().into_bytes()), Tok::Expr(w.clone())] {
+                    if !f(Case { ty: ALL_TY[p as usize], tok, min: 2f64.to_bits(), max: 100f64.to_bits(), default: Some(7f64.to_bits()), path: (i % 7) as u8 }) {
+                        return;
+                    }
                 }
             }
         },
